@@ -454,12 +454,16 @@ where
         //-> infinite step length
         return αmax;
     } else if a == T::zero() {
-        // edge case with only one root.  This corresponds to
+        // edge case with only one root -c/b.  This corresponds to
         // the case where the search direction is exactly on the
-        // cone boundary.   The root should be -c/b, but b can't
-        // be negative since both (x,y) are in the cone and it is
-        // self dual, so <x,y> \ge 0 necessarily.
-        return αmax;
+        // boundary of the cone (then b >= 0 since the cone is self
+        // dual, and there is no positive root) or on the boundary
+        // of its negative (then b < 0 and the root is positive).
+        return if b < T::zero() {
+            T::min(αmax, -c / b)
+        } else {
+            αmax
+        };
     } else if c == T::zero() {
         // Edge case with one of the roots at 0.   This corresponds
         // to the case where the initial point is exactly on the
